@@ -347,6 +347,52 @@ func ruleEscapes(c *eng.Ctx) {
 		sort.Strings(bad)
 		c.Check(len(bad) == 0, R, fnName+"#escape-table", sw.Pos(), "escape table equals ISO 32000 table 3", "escape table differs: "+strings.Join(bad, "; "))
 
+		// backslash CR LF is one line continuation: the clause that handles CR looks whether an LF follows
+		okCRLF := false
+		for _, st := range sw.Body.List {
+			cc, ok := st.(*ast.CaseClause)
+			if !ok {
+				continue
+			}
+			hasCR := false
+			for _, e := range cc.List {
+				if tv, ok := fd.Pkg.TypesInfo.Types[e]; ok && tv.Value != nil && tv.Value.Kind() == constant.Int {
+					if k, _ := constant.Int64Val(tv.Value); k == '\r' {
+						hasCR = true
+					}
+				}
+			}
+			if !hasCR {
+				continue
+			}
+			look := func(n ast.Node) {
+				ast.Inspect(n, func(m ast.Node) bool {
+					if be, ok := m.(*ast.BinaryExpr); ok && (be.Op == token.EQL || be.Op == token.NEQ) {
+						for _, side := range []ast.Expr{be.X, be.Y} {
+							if tv, ok := fd.Pkg.TypesInfo.Types[side]; ok && tv.Value != nil && tv.Value.Kind() == constant.Int {
+								if k, _ := constant.Int64Val(tv.Value); k == '\n' {
+									okCRLF = true
+								}
+							}
+						}
+					}
+					return true
+				})
+			}
+			for _, b := range cc.Body {
+				look(b)
+				ast.Inspect(b, func(m ast.Node) bool {
+					if call, ok := m.(*ast.CallExpr); ok {
+						if body := localHelperBody(fd, call); body != nil {
+							look(body)
+						}
+					}
+					return true
+				})
+			}
+		}
+		c.Check(okCRLF, R, fnName+"#continuation-CRLF", sw.Pos(), "after backslash CR a following LF belongs to the same line continuation", "the clause for backslash CR does not look for an LF after it: a string wrapped with backslash CR LF keeps a stray line feed at every wrap point")
+
 		// octal continuation: the test applied to the 2nd/3rd digit accepts exactly 0-7, loop bound 2
 		okOct, why := octalContinuation(c.P, fd)
 		c.Check(okOct, R, fnName+"#octal-continuation", sw.Pos(), "octal escape continues only on 0-7, at most 3 digits", why)
